@@ -360,7 +360,10 @@ func oracleC01(o *resOp) bool {
 	}
 	// Clause 3: AD only for secure data.
 	if m.AuthenticatedData && !truth.Secure {
-		res.Fail("C01/ad-on-insecure", "%s: AD set but the name is not under an unbroken signed chain (truth %s)", ctx, tclass)
+		// Name the broken link when it is of the one recorded kind: a signed zone without a DS
+		// in its parent (an island) whose own children are signed and carry DS records. Inside
+		// such an island the DS/DNSKEY chain validates link by link, but nothing anchors it.
+		res.Fail("C01/ad-on-insecure", "%s: AD set but the name is not under an unbroken signed chain (truth %s)%s", ctx, tclass, c01Island(sc.World.Zones, op.Name))
 		return false
 	}
 	if m.AuthenticatedData && truth.OptOut && (truth.Kind == "nxdomain" || truth.Kind == "nodata") && op.Qtype == dns.TypeDS {
@@ -523,4 +526,44 @@ func shrinkC01(sc0 any, fails func(any) bool) any {
 		}
 	}
 	return sc
+}
+
+// c01Island returns " island=<zone>" when name lies in a zone that is chained by DS records
+// up to a signed zone that itself has no DS in its parent, else "".
+func c01Island(zones []world.ZoneSpec, name string) string {
+	name = dns.CanonicalName(name)
+	by := map[string]world.ZoneSpec{}
+	for _, z := range zones {
+		by[dns.CanonicalName(z.Name)] = z
+	}
+	enclosing := func(n string) (world.ZoneSpec, bool) {
+		best, ok := world.ZoneSpec{}, false
+		for zn, z := range by {
+			if dns.IsSubDomain(zn, n) && (!ok || dns.CountLabel(zn) > dns.CountLabel(best.Name)) {
+				best, ok = z, true
+			}
+		}
+		return best, ok
+	}
+	z, ok := enclosing(name)
+	for hops := 0; ok && hops < 10; hops++ {
+		zn := dns.CanonicalName(z.Name)
+		if !z.Signed || zn == "." {
+			return ""
+		}
+		if !z.Secure {
+			if hops == 0 {
+				return "" // the island's own apex data: nothing was chained to it
+			}
+			return " island=" + zn
+		}
+		// parent zone of z
+		labels := dns.SplitDomainName(zn)
+		if len(labels) == 0 {
+			return ""
+		}
+		parentName := dns.Fqdn(strings.Join(labels[1:], "."))
+		z, ok = enclosing(parentName)
+	}
+	return ""
 }
